@@ -91,6 +91,8 @@ pub struct TreeGen {
     pub order: Vec<H>,
     /// counters describing what the generator produced
     pub stats: HashMap<&'static str, u64>,
+    /// cells the generator's own transactions never spend (engines reserve them for their probes)
+    pub keep: HashSet<(H, u32)>,
     salt: u64,
 }
 
@@ -125,6 +127,7 @@ impl TreeGen {
             info,
             order: vec![],
             stats: HashMap::new(),
+            keep: HashSet::new(),
             salt: seed,
         }
     }
@@ -280,7 +283,7 @@ impl TreeGen {
     fn new_tx(&mut self, parent: &H, in_block: &[TransactionView]) -> Option<TransactionView> {
         let st = self.rc.replay(parent);
         let pending = self.pending_on_path(parent);
-        let mut reserved: HashSet<(H, u32)> = HashSet::new();
+        let mut reserved: HashSet<(H, u32)> = self.keep.clone();
         for tx in pending.iter().chain(in_block.iter()) {
             for op in tx.input_pts_iter() {
                 let idx: u32 = op.index().into();
@@ -306,7 +309,7 @@ impl TreeGen {
                     if out.type_().to_opt().is_some() {
                         continue;
                     }
-                    if reserved.contains(&(th, i as u32)) && !conflict {
+                    if (reserved.contains(&(th, i as u32)) && !conflict) || self.keep.contains(&(th, i as u32)) {
                         continue;
                     }
                     let cap: u64 = out.capacity().into();
@@ -316,11 +319,17 @@ impl TreeGen {
             }
         }
         if inputs.is_empty() {
+            // cellbase outputs are only spent when there is no maturity period to respect
+            let maturity_zero = self.gi.consensus.cellbase_maturity().full_value()
+                == ckb_types::core::EpochNumberWithFraction::new(0, 0, 1).full_value();
             let live: Vec<(&(H, u32), &model::CellRec)> = st
                 .cells
                 .iter()
                 .filter(|(k, c)| {
-                    is_plain_spendable(&self.gi, c) && (conflict || !reserved.contains(*k))
+                    is_plain_spendable(&self.gi, c)
+                        && (conflict || !reserved.contains(*k))
+                        && !self.keep.contains(*k)
+                        && (maturity_zero || !(c.tx_index == 0 && c.block_number > 0))
                 })
                 .collect();
             if live.is_empty() {
